@@ -174,6 +174,9 @@ theorem c20_unregistered (t : Table) (name : Bytes) (id : Nat) (hn : NameOk name
     have := (c20_resolve_correct t n cs hcs).1 c name a cached hmem
     rw [h] at this; cases this
 
+/-- a table with a record for "a" has none for "b"; both are carriable names -/
+example : Table.get [([97], ⟨1, 2, 3, 4⟩)] [98] = none ∧ NameOk [98] := by decide
+
 /-! ## F-C20-1 (fixed): the request was read with `recv(80)` -/
 
 /-- a registered name of 25 bytes: the 82-byte query is cut to 80, the parse fails, the responder
